@@ -115,6 +115,93 @@ structure PInv (wd : P → P → Bool) (orig done rest : List P) : Prop where
   cover : ∀ r ∈ orig, r ∉ done ++ rest → ∃ s ∈ done ++ rest, wd r s = true
   piv : ∀ e ∈ done, ∀ z ∈ done ++ rest, z ≠ e → wd z e = false
 
+omit [DecidableEq P] in
+/-- one iteration keeps the alive list duplicate-free -/
+theorem nodup_step (wd : P → P → Bool) (done rest : List P) (p : P) (hnd : (done ++ p :: rest).Nodup) :
+    (done.filter (fun r => !wd r p) ++ [p] ++ rest.filter (fun r => !wd r p)).Nodup := by
+  have h1 : (done ++ p :: rest).Nodup := hnd
+  rw [List.nodup_append] at h1 ⊢
+  obtain ⟨hd, hpr, hdis⟩ := h1
+  rw [List.nodup_cons] at hpr
+  refine ⟨?_, hpr.2.filter _, ?_⟩
+  · rw [List.nodup_append]
+    refine ⟨hd.filter _, List.nodup_singleton p, ?_⟩
+    intro a ha b hb
+    simp only [List.mem_singleton] at hb
+    subst hb
+    exact hdis a (List.mem_of_mem_filter ha) _ (List.mem_cons_self)
+  · intro a ha b hb
+    have hb' := List.mem_of_mem_filter hb
+    rcases List.mem_append.mp ha with ha | ha
+    · exact hdis a (List.mem_of_mem_filter ha) b (List.mem_cons_of_mem _ hb')
+    · simp only [List.mem_singleton] at ha
+      subst ha
+      intro h; subst h; exact hpr.1 hb'
+
+/-- one iteration preserves the invariant -/
+theorem PInv_step (wd : P → P → Bool) (orig : List P)
+    (trans : ∀ a ∈ orig, ∀ b ∈ orig, ∀ c ∈ orig, wd a b = true → wd b c = true → wd a c = true)
+    (done rest : List P) (p : P) (hinv : PInv wd orig done (p :: rest)) :
+    PInv wd orig (done.filter (fun r => !wd r p) ++ [p]) (rest.filter (fun r => !wd r p)) := by
+  have hp : p ∈ orig := hinv.sub _ (by simp)
+  have memNew : ∀ x, x ∈ done.filter (fun r => !wd r p) ++ [p] ++ rest.filter (fun r => !wd r p) ↔
+      (x = p ∨ (x ∈ done ++ rest ∧ wd x p = false)) := by
+    intro x
+    simp only [List.mem_append, List.mem_filter, List.mem_singleton, Bool.not_eq_true']
+    tauto
+  refine ⟨?_, ?_, ?_⟩
+  · intro x hx
+    rcases (memNew x).mp hx with h | ⟨h, _⟩
+    · subst h; exact hinv.sub _ (by simp)
+    · apply hinv.sub; rcases List.mem_append.mp h with h | h
+      · exact List.mem_append.mpr (Or.inl h)
+      · exact List.mem_append.mpr (Or.inr (List.mem_cons_of_mem _ h))
+  · intro r hr hnot
+    have pin : p ∈ done.filter (fun r => !wd r p) ++ [p] ++ rest.filter (fun r => !wd r p) :=
+      (memNew p).mpr (Or.inl rfl)
+    by_cases hold : r ∈ done ++ p :: rest
+    · have hrp : r ≠ p := fun h => hnot (h ▸ pin)
+      have hin : r ∈ done ++ rest := by
+        rcases List.mem_append.mp hold with h | h
+        · exact List.mem_append.mpr (Or.inl h)
+        · rcases List.mem_cons.mp h with h | h
+          · exact absurd h hrp
+          · exact List.mem_append.mpr (Or.inr h)
+      have : wd r p = true := by
+        by_contra hw
+        exact hnot ((memNew r).mpr (Or.inr ⟨hin, by simpa using hw⟩))
+      exact ⟨p, pin, this⟩
+    · obtain ⟨s, hs, hrs⟩ := hinv.cover r hr hold
+      have hso : s ∈ orig := hinv.sub s hs
+      by_cases hsp : wd s p = true
+      · exact ⟨p, pin, trans _ hr _ hso _ hp hrs hsp⟩
+      · refine ⟨s, (memNew s).mpr ?_, hrs⟩
+        by_cases hsp' : s = p
+        · exact Or.inl hsp'
+        · right
+          refine ⟨?_, by simpa using hsp⟩
+          rcases List.mem_append.mp hs with h | h
+          · exact List.mem_append.mpr (Or.inl h)
+          · rcases List.mem_cons.mp h with h | h
+            · exact absurd h hsp'
+            · exact List.mem_append.mpr (Or.inr h)
+  · intro e he z hz hze
+    have hz' := (memNew z).mp hz
+    rcases List.mem_append.mp he with he | he
+    · have he' := List.mem_of_mem_filter he
+      apply hinv.piv e he' z _ hze
+      rcases hz' with h | ⟨h, _⟩
+      · subst h; simp
+      · rcases List.mem_append.mp h with h | h
+        · exact List.mem_append.mpr (Or.inl h)
+        · exact List.mem_append.mpr (Or.inr (List.mem_cons_of_mem _ h))
+    · simp only [List.mem_singleton] at he
+      subst he
+      rcases hz' with h | ⟨_, h⟩
+      · exact absurd h hze
+      · exact h
+
+
 theorem paretoGo_inv (wd : P → P → Bool) (orig : List P)
     (trans : ∀ a ∈ orig, ∀ b ∈ orig, ∀ c ∈ orig, wd a b = true → wd b c = true → wd a c = true) :
     ∀ (n : ℕ) (done rest : List P), rest.length = n → (done ++ rest).Nodup → PInv wd orig done rest →
@@ -127,85 +214,10 @@ theorem paretoGo_inv (wd : P → P → Bool) (orig : List P)
     | nil => rw [paretoGo]; exact hinv
     | cons p rest =>
       rw [paretoGo]
-      have hp : p ∈ orig := hinv.sub _ (by simp)
-      have hnd' : (done.filter (fun r => !wd r p) ++ [p] ++ rest.filter (fun r => !wd r p)).Nodup := by
-        have h1 : (done ++ p :: rest).Nodup := hnd
-        rw [List.nodup_append] at h1 ⊢
-        obtain ⟨hd, hpr, hdis⟩ := h1
-        rw [List.nodup_cons] at hpr
-        refine ⟨?_, hpr.2.filter _, ?_⟩
-        · rw [List.nodup_append]
-          refine ⟨hd.filter _, List.nodup_singleton p, ?_⟩
-          intro a ha b hb
-          simp only [List.mem_singleton] at hb
-          subst hb
-          exact hdis a (List.mem_of_mem_filter ha) _ (List.mem_cons_self)
-        · intro a ha b hb
-          have hb' := List.mem_of_mem_filter hb
-          rcases List.mem_append.mp ha with ha | ha
-          · exact hdis a (List.mem_of_mem_filter ha) b (List.mem_cons_of_mem _ hb')
-          · simp only [List.mem_singleton] at ha
-            subst ha
-            intro h; subst h; exact hpr.1 hb'
-      refine ih (rest.filter (fun r => !wd r p)).length ?_ _ _ rfl hnd' ?_
-      · rw [← hlen]; simp only [List.length_cons]
-        exact Nat.lt_succ_of_le (List.length_filter_le _ _)
-      · have memNew : ∀ x, x ∈ done.filter (fun r => !wd r p) ++ [p] ++ rest.filter (fun r => !wd r p) ↔
-            (x = p ∨ (x ∈ done ++ rest ∧ wd x p = false)) := by
-          intro x
-          simp only [List.mem_append, List.mem_filter, List.mem_singleton, Bool.not_eq_true']
-          tauto
-        refine ⟨?_, ?_, ?_⟩
-        · intro x hx
-          rcases (memNew x).mp hx with h | ⟨h, _⟩
-          · subst h; exact hinv.sub _ (by simp)
-          · apply hinv.sub; rcases List.mem_append.mp h with h | h
-            · exact List.mem_append.mpr (Or.inl h)
-            · exact List.mem_append.mpr (Or.inr (List.mem_cons_of_mem _ h))
-        · intro r hr hnot
-          have pin : p ∈ done.filter (fun r => !wd r p) ++ [p] ++ rest.filter (fun r => !wd r p) :=
-            (memNew p).mpr (Or.inl rfl)
-          by_cases hold : r ∈ done ++ p :: rest
-          · have hrp : r ≠ p := fun h => hnot (h ▸ pin)
-            have hin : r ∈ done ++ rest := by
-              rcases List.mem_append.mp hold with h | h
-              · exact List.mem_append.mpr (Or.inl h)
-              · rcases List.mem_cons.mp h with h | h
-                · exact absurd h hrp
-                · exact List.mem_append.mpr (Or.inr h)
-            have : wd r p = true := by
-              by_contra hw
-              exact hnot ((memNew r).mpr (Or.inr ⟨hin, by simpa using hw⟩))
-            exact ⟨p, pin, this⟩
-          · obtain ⟨s, hs, hrs⟩ := hinv.cover r hr hold
-            have hso : s ∈ orig := hinv.sub s hs
-            by_cases hsp : wd s p = true
-            · exact ⟨p, pin, trans _ hr _ hso _ hp hrs hsp⟩
-            · refine ⟨s, (memNew s).mpr ?_, hrs⟩
-              by_cases hsp' : s = p
-              · exact Or.inl hsp'
-              · right
-                refine ⟨?_, by simpa using hsp⟩
-                rcases List.mem_append.mp hs with h | h
-                · exact List.mem_append.mpr (Or.inl h)
-                · rcases List.mem_cons.mp h with h | h
-                  · exact absurd h hsp'
-                  · exact List.mem_append.mpr (Or.inr h)
-        · intro e he z hz hze
-          have hz' := (memNew z).mp hz
-          rcases List.mem_append.mp he with he | he
-          · have he' := List.mem_of_mem_filter he
-            apply hinv.piv e he' z _ hze
-            rcases hz' with h | ⟨h, _⟩
-            · subst h; simp
-            · rcases List.mem_append.mp h with h | h
-              · exact List.mem_append.mpr (Or.inl h)
-              · exact List.mem_append.mpr (Or.inr (List.mem_cons_of_mem _ h))
-          · simp only [List.mem_singleton] at he
-            subst he
-            rcases hz' with h | ⟨_, h⟩
-            · exact absurd h hze
-            · exact h
+      refine ih (rest.filter (fun r => !wd r p)).length ?_ _ _ rfl (nodup_step wd done rest p hnd)
+        (PInv_step wd orig trans done rest p hinv)
+      rw [← hlen]; simp only [List.length_cons]
+      exact Nat.lt_succ_of_le (List.length_filter_le _ _)
 
 /-- soundness + completeness of the two-list filter, for any test that is reflexive and transitive
     on the input points -/
